@@ -189,6 +189,12 @@ func c08(c *Ctx) {
 		if !same(rep.Plain, rep.Offset) {
 			c.Violation("relation", fmt.Sprintf("input %s: a reader positioned at a non-zero offset gives %s, ParseString gives %s", short(fmt.Sprintf("%q", in)), rep.Offset.Class, rep.Plain.Class), cs(map[string]any{"plain": rep.Plain, "offset": rep.Offset}))
 		}
+		if !same(rep.Plain, rep.StdAt) {
+			c.Violation("relation", fmt.Sprintf("input %s: a strings.Reader / bytes.Reader handed over at position %d gives %s, ParseString gives %s", short(fmt.Sprintf("%q", in)), rep.StdPos, rep.StdAt.Class, rep.Plain.Class), cs(map[string]any{"plain": rep.Plain, "std_at": rep.StdAt, "position": rep.StdPos}))
+		}
+		if rep.NoSeek.Class != "err" {
+			c.Violation("relation", fmt.Sprintf("input %s: a reader that cannot be rewound (Seek fails) yields %s, not an error", short(fmt.Sprintf("%q", in)), rep.NoSeek.Class), cs(map[string]any{"no_seek": rep.NoSeek}))
+		}
 		if rf.faultAt >= 0 && rep.Fault.Class != "err" {
 			c.Violation("relation", fmt.Sprintf("input %s: a read fault at byte %d (delivery mode %d: %s) yields %s, not an error", short(fmt.Sprintf("%q", in)), rf.faultAt, rep.FaultMode, faultModes[rep.FaultMode], rep.Fault.Class), cs(map[string]any{"fault": rep.Fault, "fault_mode": rep.FaultMode}))
 		}
